@@ -2,6 +2,8 @@ package checks
 
 import (
 	"fmt"
+	"sync"
+	"sync/atomic"
 
 	"verif/h/gen"
 	"verif/h/mon"
@@ -49,6 +51,10 @@ func runC19(b *mon.B) {
 	caseNo := 0
 	connNo := 0
 	serverKey := []byte("server-key-" + r.Alnum(6))
+	if b.Index%4 == 1 {
+		// long secrets: this batch's client secrets share a 60..100-byte prefix with the server's
+		serverKey = []byte("server-key-" + r.Alnum(60+r.Intn(60)))
+	}
 	conn := srv.dial(1, serverKey)
 
 	// judge sends bytes whose post-deobfuscation content (as the server sees
@@ -167,6 +173,10 @@ func runC19(b *mon.B) {
 		}
 		// (1) wrong key: the server sees enc XOR pad(client) XOR pad(server)
 		clientKey := []byte("client-key-" + r.Alnum(1+r.Intn(8)))
+		if len(serverKey) > 60 && r.Bool() {
+			// differs from the server's secret only after a long common prefix
+			clientKey = append(append([]byte{}, serverKey[:60+r.Intn(len(serverKey)-60)]...), []byte("X"+r.Alnum(3))...)
+		}
 		h := hdr(typ, false)
 		h.Length = uint32(len(enc))
 		seen := rfc8907.Obfuscate(h, serverKey, rfc8907.Obfuscate(h, clientKey, enc))
@@ -199,6 +209,54 @@ func runC19(b *mon.B) {
 		// (5) random bytes under the key
 		if k%2 == 0 {
 			judge(hdr(typ, false), r.Bytes(5+r.Intn(70)), "random bytes", false)
+		}
+	}
+	// (8) many connections at the same time, all bound to ONE secret slice that has spare
+	// capacity (a provider may hand out the same slice to every connection): well-formed
+	// requests under that secret must never be flagged
+	{
+		shared := make([]byte, 0, 64)
+		shared = append(shared, []byte("shared-"+r.Alnum(8))...)
+		nconn := 8
+		var wg sync.WaitGroup
+		var flagged, sent int64
+		for ci := 0; ci < nconn; ci++ {
+			wg.Add(1)
+			cr := r.Fork(uint64(900 + ci))
+			cc := srv.dial(50000+ci, shared)
+			go func(ci int) {
+				defer wg.Done()
+				for k := 0; k < b.N1(150, 1500); k++ {
+					typ := 1 + cr.Intn(3)
+					ls := requestLayoutsOf[typ]
+					v := smallValue(cr, ls[cr.Intn(len(ls))])
+					if v.Layout == rfc8907.AuthenStart && v.Ints["authen_type"] == 1 {
+						v.Texts["data"] = fillText(cr, v.Layout, "data", len(v.Texts["data"]), 1, false)
+					}
+					enc, _ := v.Encode()
+					h := rfc8907.Header{Major: 0xc, Minor: cr.Intn(2), Type: typ, Seq: 1 + 2*cr.Intn(100), Session: cr.U32()}
+					cc.Feed(pktSpec{H: h, Clear: enc}.wire(shared))
+					st, err := cc.WaitQuiescent()
+					cc.TakePackets()
+					atomic.AddInt64(&sent, 1)
+					if err != nil {
+						return
+					}
+					if st.Closed {
+						atomic.AddInt64(&flagged, 1)
+						return
+					}
+				}
+				cc.EOF()
+			}(ci)
+		}
+		wg.Wait()
+		caseNo++
+		b.Eval(1)
+		b.Class("concurrent-connections-sharing-one-secret-slice")
+		b.Count("concurrent_shared_secret_requests", int(sent))
+		if flagged > 0 {
+			b.Violate(caseNo, "C19/valid-request-flagged/concurrent-shared-secret", fmt.Sprintf("%d of %d concurrent connections bound to the same secret were closed on a well-formed request under that secret", flagged, nconn), nil)
 		}
 	}
 	// (7) the mismatch shows up in a FOLLOW-UP packet of a session that started fine
